@@ -118,6 +118,7 @@ type ReaderCli struct {
 func init() {
 	Register(&Scenario{
 		Name:     "reader",
+		OptsToo:  true,
 		LazyToo:  true,
 		Property: "C20",
 		Cfg:      vsched.Config{Horizon: 10 * time.Second},
